@@ -26,6 +26,7 @@
 #include <stdint.h>
 #include <linux/sched.h>
 #include <sys/mount.h>
+#include <locale.h>
 #include <stdio.h>
 #include <stdio_ext.h>
 #include <stdlib.h>
@@ -1150,6 +1151,11 @@ static void run_ops(op_t *ops, int nops)
             kill(g_chain->pid[lvl], SIGUSR1);
             for (int ms = 0; ms < 3000 && !g_chain->ack; ms++) usleep(1000);
             if (!g_chain->ack) ev_error("ancestor did not rename");
+            break; }
+        case 'q': { /* the calling program has selected a locale (setlocale): args name; LOCPATH comes with the environment */
+            char *nm = dupz(op->a[0].p, op->a[0].len);
+            if (!setlocale(LC_ALL, nm)) ev_error("setlocale");
+            free(nm);
             break; }
         case 'w': { /* the caller has unflushed data in its stdout buffer: args bytes */
             setvbuf(stdout, NULL, _IOFBF, 1 << 16);
